@@ -104,8 +104,9 @@ func (dc *ClientDnsConnection) Close() error {
 		}
 	}
 
-	// Nothing more will arrive: wake up a Read that is waiting for data
+	// Nothing more will arrive: wake up a Read that is waiting for data and a Write that is waiting for an acknowledgement
 	dc.in.Close()
+	dc.out.Close()
 
 	return dc.Communicator.Close()
 }
